@@ -602,7 +602,25 @@ func (c *Ctx) ruleWG(rule string) {
 							}
 						}
 					}
-					if added {
+					viaCallee := ""
+					if !added {
+						// the count may have been reserved by a callee that reports success: every possibly-nil-error return
+						// of the callee is preceded by an Add, and the go is only reached on the nil-error outcome of the call
+						for _, cond := range core.CondsAt(g.Block()) {
+							x, neq, isNil := core.NilCmp(cond.V)
+							if !isNil || neq == cond.True {
+								continue
+							}
+							if cc, ok := core.Unwrap(x).(*ssa.Call); ok {
+								if callee := cc.Call.StaticCallee(); callee != nil && c.addsOnNilError(callee, w) {
+									added, viaCallee = true, callee.Name()
+								}
+							}
+						}
+					}
+					if added && viaCallee != "" {
+						c.R.Ok(rule, k, c.M.InstrPos(g), "goroutine counted by "+wname, "the go is reached only on the nil-error outcome of "+viaCallee+", every successful return of which is preceded by an Add on the same WaitGroup")
+					} else if added {
 						c.R.Ok(rule, k, c.M.InstrPos(g), "goroutine counted by "+wname, "Add on the same WaitGroup dominates the go statement")
 					} else {
 						c.R.Bad(rule, k, c.M.InstrPos(g), "goroutine calls Done on "+wname+" but no Add precedes its start",
@@ -615,6 +633,80 @@ func (c *Ctx) ruleWG(rule string) {
 					} else {
 						c.R.Bad(rule, k2, c.M.InstrPos(g), "goroutine may exit without Done on "+wname, "some return path of the goroutine function does not call Done: Wait blocks forever")
 					}
+				}
+			}
+		}
+	}
+	// (b') a count reserved by a callee is released: where a function calls one that Adds on success, every path from the
+	// nil-error outcome to a return passes a Done on that WaitGroup or a go whose goroutine always calls it
+	for _, fn := range c.M.SortedFuncs(c.scopePkg("atp")) {
+		for _, b := range fn.Blocks {
+			for _, in := range b.Instrs {
+				call, ok := in.(*ssa.Call)
+				if !ok {
+					continue
+				}
+				callee := call.Call.StaticCallee()
+				if callee == nil || callee.Pkg != pkg {
+					continue
+				}
+				var w wgRef
+				reserved := false
+				for _, cb := range callee.Blocks {
+					for _, cin := range cb.Instrs {
+						if cc, ok := cin.(*ssa.Call); ok {
+							if x, ok := c.wgOfCall(&cc.Call, "Add"); ok && x.structT != nil && c.addsOnNilError(callee, x) {
+								w, reserved = x, true
+							}
+						}
+					}
+				}
+				if !reserved {
+					continue
+				}
+				var okSucc *ssa.BasicBlock
+				if refs := call.Referrers(); refs != nil {
+					for _, r := range *refs {
+						if bin, isBin := r.(*ssa.BinOp); isBin {
+							if _, neq, isNil := core.NilCmp(bin); isNil {
+								for _, r2 := range *bin.Referrers() {
+									if ifi, isIf := r2.(*ssa.If); isIf {
+										okSucc = ifi.Block().Succs[1]
+										if !neq {
+											okSucc = ifi.Block().Succs[0]
+										}
+									}
+								}
+							}
+						}
+					}
+				}
+				wname := w.structT.Obj().Name() + "." + w.field
+				k := key(rule, c.M.Key(fn), "the count "+callee.Name()+" reserved on "+wname+" is released on every path")
+				if okSucc == nil {
+					c.R.Bad(rule, k, c.M.InstrPos(call), "a reserved count on "+wname+" is not followed up", "the success of "+callee.Name()+" is not tested: nothing shows that the count it adds is ever released")
+					continue
+				}
+				released := everyPathSat(okSucc, func(_ *ssa.BasicBlock, in2 ssa.Instruction) bool {
+					switch y := in2.(type) {
+					case *ssa.Call:
+						if x, ok := c.wgOfCall(&y.Call, "Done"); ok && sameWG(x, w) {
+							return true
+						}
+					case *ssa.Go:
+						for _, tgt := range c.M.Callees(y.Common()) {
+							if c.mustDone(tgt, w, 0) {
+								return true
+							}
+						}
+					}
+					return false
+				})
+				if released {
+					c.R.Ok(rule, k, c.M.InstrPos(call), "count reserved for a goroutine that is started later", "every path from the successful call to a return passes a Done on "+wname+" or starts a goroutine that always calls it")
+				} else {
+					c.R.Bad(rule, k, c.M.InstrPos(call), "a count reserved on "+wname+" can be left behind",
+						"a path from the successful "+callee.Name()+" to a return neither calls Done nor starts the goroutine that would: Wait (Close) never returns")
 				}
 			}
 		}
@@ -685,6 +777,36 @@ func (c *Ctx) ruleWG(rule string) {
 			}
 		}
 	}
+}
+
+// addsOnNilError: every return of fn whose error result may be nil is preceded, on every path, by an Add on w.
+func (c *Ctx) addsOnNilError(fn *ssa.Function, w wgRef) bool {
+	ei := core.ErrorResultIndex(fn.Signature)
+	if ei < 0 || len(fn.Blocks) == 0 {
+		return false
+	}
+	gen := func(b *ssa.BasicBlock) bool {
+		for _, in := range b.Instrs {
+			if call, ok := in.(*ssa.Call); ok {
+				if x, ok := c.wgOfCall(&call.Call, "Add"); ok && sameWG(x, w) {
+					return true
+				}
+			}
+		}
+		return false
+	}
+	hold := mustHoldGen(fn, func(core.Cond) bool { return false }, gen)
+	n := 0
+	for _, r := range core.ReturnsOf(fn) {
+		if c.M.ProvablyNonNilError(core.RetVal(r, ei), r.Block()) {
+			continue
+		}
+		n++
+		if !hold[r.Block()] && !gen(r.Block()) {
+			return false
+		}
+	}
+	return n > 0
 }
 
 func (c *Ctx) waitsOnParam(fn *ssa.Function) bool {
@@ -1899,20 +2021,47 @@ func (c *Ctx) deliverResultClause(rule string, ro *atpRoles, deliver map[*ssa.Fu
 					}
 					return false
 				}
+				// a delivery that reports whether it reached a waiting call, tested by the handler: on the "did not"
+				// outcome every path must fail all waiters
+				testedDelivery := func(x *ssa.Call) bool {
+					if x.Referrers() == nil {
+						return false
+					}
+					for _, r := range *x.Referrers() {
+						ifi, isIf := r.(*ssa.If)
+						if !isIf {
+							continue
+						}
+						notDelivered := ifi.Block().Succs[1]
+						return everyPathSat(notDelivered, func(_ *ssa.BasicBlock, in2 ssa.Instruction) bool {
+							y, ok := in2.(*ssa.Call)
+							if !ok {
+								return false
+							}
+							for _, callee := range c.M.Callees(&y.Call) {
+								if mustFailAll[callee] {
+									return true
+								}
+							}
+							return false
+						})
+					}
+					return false
+				}
 				reaches := everyPathSat(okBlock, func(blk *ssa.BasicBlock, in ssa.Instruction) bool {
 					x, ok := in.(*ssa.Call)
 					if !ok {
 						return false
 					}
 					for _, callee := range c.M.Callees(&x.Call) {
-						if mustFailAll[callee] || (deliver[callee] && found(blk)) {
+						if mustFailAll[callee] || (deliver[callee] && (found(blk) || testedDelivery(x))) {
 							return true
 						}
 					}
 					return false
 				})
 				if reaches {
-					c.R.Ok(rule, k, c.M.InstrPos(call), "a work-done message that decoded", "every path to the handler's return delivers to the run's entry where the pending table is known to hold one, or fails all waiters")
+					c.R.Ok(rule, k, c.M.InstrPos(call), "a work-done message that decoded", "every path to the handler's return delivers to the run's entry where the pending table is known to hold one (or tests whether the delivery reached a waiting call, failing all waiters where it did not), or fails all waiters")
 				} else {
 					c.R.Bad(rule, k, c.M.InstrPos(call), "a decoded result can be dropped when no run of that ID is waiting",
 						"a path from the successful decode to the handler's return delivers without knowing that the pending table holds the run (the delivery only logs when it does not) and fails nobody: one changed bit in the run ID loses the result of a pending run, whose Execute call never returns")
@@ -1922,6 +2071,94 @@ func (c *Ctx) deliverResultClause(rule string, ro *atpRoles, deliver map[*ssa.Fu
 	}
 	if n == 0 {
 		c.R.Unresolved(rule, "handler of work-done messages in the client's read loop")
+	}
+	// the same for every other per-run delivery the read loop makes (a step-fatal error ends a run like a result does):
+	// a call of the function that stores a result, made outside the broadcast functions, is made where the pending
+	// table is known to hold the run, or its "reached a waiting call" result is tested and the other outcome fails all
+	direct := map[*ssa.Function]bool{}
+	for f := range deliver {
+		for _, b := range f.Blocks {
+			for _, in := range b.Instrs {
+				if st, ok := in.(*ssa.Store); ok {
+					if fa, ok := st.Addr.(*ssa.FieldAddr); ok {
+						if sn := structOf(fa.X.Type()); sn != nil && sn.Obj() != ro.clientT.Obj() && sn.Obj().Pkg() == ro.clientT.Obj().Pkg() {
+							if est := fieldsOf(sn); est != nil {
+								for i := 0; i < est.NumFields(); i++ {
+									if isNamed(est.Field(i).Type(), "sync", "Cond") {
+										if _, isAlloc := fa.X.(*ssa.Alloc); !isAlloc {
+											direct[f] = true
+										}
+									}
+								}
+							}
+						}
+					}
+				}
+			}
+		}
+	}
+	m := 0
+	for _, fn := range c.M.SortedFuncs(c.scopePkg("atp")) {
+		if !inTree[fn] || ranges[fn] || direct[fn] || !c.methodOrClosureOf(fn, ro.clientT) {
+			continue
+		}
+		cnt := 0
+		for _, b := range fn.Blocks {
+			for _, in := range b.Instrs {
+				call, ok := in.(*ssa.Call)
+				if !ok {
+					continue
+				}
+				isDirect := false
+				for _, callee := range c.M.Callees(&call.Call) {
+					if direct[callee] {
+						isDirect = true
+					}
+				}
+				if !isDirect {
+					continue
+				}
+				m++
+				cnt++
+				k := key(rule, c.M.Key(fn), sprintf("per-run delivery #%d reaches a waiting call, or everybody is failed", cnt))
+				foundHere := false
+				for _, cond := range core.CondsAt(b) {
+					if ex, ok := cond.V.(*ssa.Extract); ok && ex.Index == 1 && cond.True {
+						if lk, ok := ex.Tuple.(*ssa.Lookup); ok && lk.CommaOk && c.isFieldLoad(lk.X, ro.clientT, ro.pending) {
+							foundHere = true
+						}
+					}
+				}
+				tested := false
+				if refs := call.Referrers(); refs != nil {
+					for _, r := range *refs {
+						if ifi, isIf := r.(*ssa.If); isIf {
+							tested = everyPathSat(ifi.Block().Succs[1], func(_ *ssa.BasicBlock, in2 ssa.Instruction) bool {
+								y, ok := in2.(*ssa.Call)
+								if !ok {
+									return false
+								}
+								for _, callee := range c.M.Callees(&y.Call) {
+									if mustFailAll[callee] {
+										return true
+									}
+								}
+								return false
+							})
+						}
+					}
+				}
+				if foundHere || tested {
+					c.R.Ok(rule, k, c.M.InstrPos(call), "delivery of one run's result or step-fatal error by the read loop", "made where the pending table is known to hold the run, or its outcome is tested and 'reached nobody' fails all waiters")
+				} else {
+					c.R.Bad(rule, k, c.M.InstrPos(call), "a result or step-fatal error for one run can be dropped",
+						"the delivery only logs when no call is waiting under that run ID (or the run has its result already): one changed bit in the run ID of another run's terminal message loses it, and that run's Execute never returns")
+				}
+			}
+		}
+	}
+	if m < 2 {
+		c.R.Unresolved(rule, sprintf("per-run deliveries made by the read loop's handlers (%d found, at least 2 expected)", m))
 	}
 }
 
@@ -2704,25 +2941,76 @@ func (c *Ctx) rulePairInsert(rule string) {
 					}
 					return false
 				}
-				seen := map[*ssa.BasicBlock]bool{}
+				// A return that reports success (nil error) hands the duty over to the caller: there, the path from the
+				// nil-error outcome of the call must pass the waiting function or a removal.
 				var leak *ssa.BasicBlock
-				var walk func(bb *ssa.BasicBlock)
-				walk = func(bb *ssa.BasicBlock) {
-					if seen[bb] || leak != nil || cleans(bb) {
-						return
-					}
-					seen[bb] = true
-					if len(bb.Instrs) > 0 {
-						if _, isRet := bb.Instrs[len(bb.Instrs)-1].(*ssa.Return); isRet {
-							leak = bb
+				var check func(start *ssa.BasicBlock, depth int)
+				check = func(start *ssa.BasicBlock, depth int) {
+					seen := map[*ssa.BasicBlock]bool{}
+					var walk func(bb *ssa.BasicBlock)
+					walk = func(bb *ssa.BasicBlock) {
+						if seen[bb] || leak != nil || cleans(bb) {
 							return
 						}
+						seen[bb] = true
+						if len(bb.Instrs) > 0 {
+							if ret, isRet := bb.Instrs[len(bb.Instrs)-1].(*ssa.Return); isRet {
+								f := bb.Parent()
+								ei := core.ErrorResultIndex(f.Signature)
+								if ei >= 0 && core.IsNilConst(core.RetVal(ret, ei)) && depth < 3 {
+									sites := 0
+									for _, g := range c.M.SortedFuncs(c.scopePkg("atp")) {
+										for _, gb := range g.Blocks {
+											for _, gin := range gb.Instrs {
+												gc, ok := gin.(*ssa.Call)
+												if !ok || gc.Call.StaticCallee() != f {
+													continue
+												}
+												sites++
+												// the nil-error outcome: the call's error is tested in this block or a later one
+												var okSucc *ssa.BasicBlock
+												if refs := gc.Referrers(); refs != nil {
+													for _, r := range *refs {
+														bin, isBin := r.(*ssa.BinOp)
+														if !isBin {
+															continue
+														}
+														if _, neq, isNil := core.NilCmp(bin); isNil {
+															for _, r2 := range *bin.Referrers() {
+																if ifi2, isIf := r2.(*ssa.If); isIf {
+																	okSucc = ifi2.Block().Succs[1]
+																	if !neq {
+																		okSucc = ifi2.Block().Succs[0]
+																	}
+																}
+															}
+														}
+													}
+												}
+												if okSucc == nil {
+													leak = bb
+													return
+												}
+												check(okSucc, depth+1)
+											}
+										}
+									}
+									if sites == 0 {
+										leak = bb
+									}
+									return
+								}
+								leak = bb
+								return
+							}
+						}
+						for _, s := range bb.Succs {
+							walk(s)
+						}
 					}
-					for _, s := range bb.Succs {
-						walk(s)
-					}
+					walk(start)
 				}
-				walk(success)
+				check(success, 0)
 				if leak == nil {
 					c.R.Ok(rule, k, c.M.InstrPos(call), "insertion into the pending table", "every path from the successful insertion to a return passes the waiting function or a removal of the entry")
 				} else {
@@ -3064,6 +3352,48 @@ func (c *Ctx) ruleDoneGate(rule string) {
 	}
 	if n == 0 {
 		c.R.Unresolved(rule, "insertion into the client's pending table")
+	}
+	// The same gate for every Add on the client's WaitGroup: Close sets the done flag under the state mutex and then
+	// waits. An Add made outside that discipline can meet a Wait in progress whose counter has just dropped to zero:
+	// "sync: WaitGroup is reused before previous Wait has returned" (a panic), or a goroutine Close no longer waits for.
+	m := 0
+	for _, fn := range c.M.SortedFuncs(c.scopePkg("atp")) {
+		if !c.methodOrClosureOf(fn, ro.clientT) {
+			continue
+		}
+		cnt := 0
+		for _, b := range fn.Blocks {
+			for _, in := range b.Instrs {
+				call, ok := in.(*ssa.Call)
+				if !ok {
+					continue
+				}
+				w, ok := c.wgOfCall(&call.Call, "Add")
+				if !ok || w.structT == nil || w.structT.Obj() != ro.clientT.Obj() {
+					continue
+				}
+				m++
+				cnt++
+				k := key(rule, c.M.Key(fn), sprintf("WaitGroup.Add #%d only on a client that is not closed", cnt))
+				est := func(cond core.Cond) bool {
+					ld, ok := cond.V.(*ssa.UnOp)
+					if !ok || cond.True {
+						return false
+					}
+					fa, ok := ld.X.(*ssa.FieldAddr)
+					return ok && structOf(fa.X.Type()) == ro.clientT && fieldName(fa.X.Type(), fa.Field) == ro.doneFlag
+				}
+				if core.MustHold(fn, est)[b] && c.stateLocked(fn, call, ro) {
+					c.R.Ok(rule, k, c.M.InstrPos(call), "Add on the WaitGroup Close waits for", "on every path the done flag was found false, under the state mutex that Close holds when it sets the flag: the Add happens before Close begins to wait")
+				} else {
+					c.R.Bad(rule, k, c.M.InstrPos(call), "an Add on the client's WaitGroup can run while Close is waiting",
+						"Close sets the done flag and waits; its counter can reach zero (the read loop went idle) just before this Add: 'sync: WaitGroup is reused before previous Wait has returned' kills the process, or Close returns with the new goroutine still running")
+				}
+			}
+		}
+	}
+	if m == 0 {
+		c.R.Unresolved(rule, "Add calls on the client's WaitGroup")
 	}
 }
 
